@@ -75,6 +75,9 @@ MEMBERS = {
     # lambda members (wrapped or not) whose nested lambdas / generator expressions read globals and builtins not used at the first level
     "nested-lambda-members": ["by_len = staticmethod(lambda seq: sorted(seq, key=lambda t: len(t)))", "grow = classmethod(lambda cls, n: n + (lambda: encl3)())",
                               "tot = property(lambda self: sum(abs(q) for q in (1, -2)))", "pick = lambda self, seq: max((divmod(x, 2) for x in seq), key=lambda p: p[1])"],
+    # the implicit class cell read by a function nested in a method and by a lambda written in the class body
+    "nested-fn-class-cell": ["def nf(self):", "    def inner():", "        return (__class__.__name__, type(super(__class__, self)).__name__)", "    return inner(), (lambda: __class__.__name__)()"],
+    "lambda-class-cell": ["lc = lambda self: __class__.__name__", "lc2 = lambda self: (lambda: __class__.__name__)()"],
     "body-reads-enclosing": ["be = (encl, encl2)", "class Inner2:", "    bi = encl2 + '!'", "def bd(self, a=encl2):", "    return a"],
 }
 
@@ -125,7 +128,7 @@ def probe(c):
         o = c()
     except Exception as e:
         out.append(('construct', type(e).__name__)); return out
-    for call in ('o.m(1)', 'o.m(1, b=5)', 'c.s(4)', 'o.s(4)', 'c.c(3)', 'o.c(3)', 'o.p', 'o.who()', 'o.v', 'o(1)', 'repr(o)', 'o.md()', 'o.lam()', 'o.lam2()', 'o.me()', "c.by_len(['bb', 'a'])", 'c.grow(1)', 'o.tot', 'o.pick([3, 4])', 'o.dc()', 'o.bd()', 'c.Inner2.bi', 'c.Inner().im()', 'c.Inner.z', 'c[int].__class__.__name__', "c['k']", 'o.made'):
+    for call in ('o.m(1)', 'o.m(1, b=5)', 'c.s(4)', 'o.s(4)', 'c.c(3)', 'o.c(3)', 'o.p', 'o.who()', 'o.v', 'o(1)', 'repr(o)', 'o.md()', 'o.lam()', 'o.lam2()', 'o.me()', 'o.nf()', 'o.lc()', 'o.lc2()', "c.by_len(['bb', 'a'])", 'c.grow(1)', 'o.tot', 'o.pick([3, 4])', 'o.dc()', 'o.bd()', 'c.Inner2.bi', 'c.Inner().im()', 'c.Inner.z', 'c[int].__class__.__name__', "c['k']", 'o.made'):
         try:
             out.append((call, repr(eval(call, {'o': o, 'c': c}))))
         except AttributeError:
@@ -211,7 +214,7 @@ def main(argv):
     kfs = {k["kf"]: k for k in load_known_findings("C12") if k.get("status") == "open"}
     member_sets = [[m] for m in MEMBERS] + [["attrs", "method", "static", "classmethod", "property"], ["init", "method", "super0"],
                    ["nested-class", "body-if", "body-for"], ["init-subclass", "method"], ["super2", "init"], ["dunder-call", "attrs", "class-var-in-method-default"],
-                   ["super0-enclosing", "dunder-class-enclosing", "method"], ["body-reads-enclosing", "attrs"], ["nested-lambda-members", "attrs"]]
+                   ["super0-enclosing", "dunder-class-enclosing", "method"], ["body-reads-enclosing", "attrs"], ["nested-lambda-members", "attrs"], ["nested-fn-class-cell", "lambda-class-cell", "method"]]
     for _ in range(10 if ck.tier == "quick" else 200):
         member_sets.append(ck.rng.sample(list(MEMBERS), ck.rng.randrange(2, 6)))
     specs = []
